@@ -15,6 +15,7 @@ import (
 	"time"
 	"verifharness/drv"
 
+	"github.com/benbjohnson/litestream"
 	"github.com/superfly/ltx"
 	"pgregory.net/rapid"
 
@@ -28,6 +29,9 @@ type c11Case struct {
 	Cmds   []pCmd     `json:"cmds"`
 	Behind bool       `json:"behind,omitempty"` // restart with the meta directory removed so the baseline file is fetched from the replica
 	Follow int        `json:"follow,omitempty"` // >0: afterwards a traced follow-mode restore runs while the primary replicates this many more transactions
+	// Legacy >0: a traced restore from a 0.3.x layout built from the application's database: 1 = a snapshot and no WAL
+	// segment after it, 2 = a snapshot and one WAL segment, 3 = a snapshot and a WAL cut into two segments
+	Legacy int `json:"legacy,omitempty"`
 }
 
 func genC11(t *rapid.T) c11Case {
@@ -42,6 +46,9 @@ func genC11(t *rapid.T) c11Case {
 	c.Behind = rapid.IntRange(0, 3).Draw(t, "behind") == 0
 	if rapid.IntRange(0, 9).Draw(t, "follow") < 4 {
 		c.Follow = rapid.IntRange(1, 3).Draw(t, "followTx")
+	}
+	if rapid.IntRange(0, 9).Draw(t, "legacy") < 3 {
+		c.Legacy = rapid.IntRange(1, 3).Draw(t, "legacyKind")
 	}
 	return c
 }
@@ -298,6 +305,12 @@ func execC11(c c11Case) (res core.Result) {
 			return res
 		}
 	}
+	if c.Legacy > 0 {
+		if v := c11LegacySession(w, c.Legacy, &res, &totalRen, &totalAcks, classes); v != nil {
+			res.Violation = v
+			return res
+		}
+	}
 	if c.Follow > 0 {
 		if v := c11FollowSession(w, c.Follow, &res, &totalRen, &totalAcks, classes); v != nil {
 			res.Violation = v
@@ -305,6 +318,82 @@ func execC11(c c11Case) (res core.Result) {
 		}
 	}
 	return res
+}
+
+// c11LegacySession traces a restore from a 0.3.x backup (generations/<id>/snapshots, .../wal) synthesised from the
+// application's database while no litestream process is attached: the database file right after a TRUNCATE checkpoint is
+// the snapshot of index 0, the WAL written afterwards is index 0's WAL, cut at a commit boundary for kind 3.
+func c11LegacySession(w *lsw.World, kind int, res *core.Result, totalRen, totalAcks *int, classes map[string]int) *core.Violation {
+	root := filepath.Join(w.Dir, "legacy")
+	gid := "000000000000a001"
+	walPath := w.DBPath + "-wal"
+	w.AppStep(lsw.Op{K: "appckpt", M: "TRUNCATE"})
+	if fi, err := os.Stat(walPath); err == nil && fi.Size() != 0 {
+		res.Labels = append(res.Labels, "legacy-skipped-wal-not-truncated")
+		return nil
+	}
+	img, err := w.ReadDB()
+	if err != nil || len(img) == 0 {
+		res.Labels = append(res.Labels, "legacy-skipped-no-image")
+		return nil
+	}
+	mt := time.Now().Add(-time.Hour)
+	writeLZ4(filepath.Join(root, "generations", gid, "snapshots", litestream.FormatSnapshotFilenameV3(0)), img, mt)
+	if kind >= 2 {
+		w.AppStep(lsw.Op{K: "insert", T: 0, N: 3, S: 1})
+		var cut int64
+		if fi, err := os.Stat(walPath); err == nil {
+			cut = fi.Size()
+		}
+		w.AppStep(lsw.Op{K: "update", T: 0, A: 0, B: 100})
+		wal, _ := os.ReadFile(walPath)
+		if len(wal) == 0 {
+			res.Labels = append(res.Labels, "legacy-skipped-empty-wal")
+			return nil
+		}
+		if kind == 3 && cut > 0 && cut < int64(len(wal)) {
+			writeLZ4(filepath.Join(root, "generations", gid, "wal", litestream.FormatWALSegmentFilenameV3(0, 0)), wal[:cut], mt.Add(10*time.Second))
+			writeLZ4(filepath.Join(root, "generations", gid, "wal", litestream.FormatWALSegmentFilenameV3(0, cut)), wal[cut:], mt.Add(20*time.Second))
+		} else {
+			writeLZ4(filepath.Join(root, "generations", gid, "wal", litestream.FormatWALSegmentFilenameV3(0, 0)), wal, mt.Add(10*time.Second))
+		}
+	}
+	s, err := startSession(w, true, 0, true)
+	if err != nil {
+		panic(fmt.Sprintf("harness: start traced child: %v", err))
+	}
+	_ = os.MkdirAll(filepath.Join(w.Dir, "legacyout"), 0o755)
+	out := filepath.Join(w.Dir, "legacyout", "l.db")
+	r := s.proc.Do(map[string]any{"op": "restore", "replica": root, "out": out})
+	if r.Crashed {
+		s.stop()
+		return &core.Violation{Oracle: "child-crashed", Msg: "legacy restore: " + r.Stderr}
+	}
+	s.stop()
+	res.Labels = append(res.Labels, fmt.Sprintf("legacy-restore-kind-%d", kind))
+	if !r.OK {
+		// whether a legacy layout restores at all is C19's subject
+		msg := r.Err
+		if len(msg) > 70 {
+			msg = msg[:70]
+		}
+		res.Labels = append(res.Labels, "legacy-restore-error", fmt.Sprintf("legacy-restore-error-kind-%d: %s", kind, msg))
+		return nil
+	}
+	if _, err := os.Stat(out); err != nil {
+		return &core.Violation{Oracle: "legacy-restore-no-output", Msg: "legacy restore acknowledged but the output file does not exist"}
+	}
+	v, nr, _, na, cl := checkTrace(s.sup.Trace(), nil, root, func(p string) bool { return p == out || p == out+"-txid" })
+	*totalRen += nr
+	*totalAcks += na
+	res.Evals += nr
+	for k, n := range cl {
+		classes["legacy-"+k] += n
+	}
+	if v != nil {
+		return &core.Violation{Oracle: v.Rule, Msg: fmt.Sprintf("legacy restore (kind %d): %s", kind, v.Msg)}
+	}
+	return nil
 }
 
 // c11FollowSession traces a follow-mode restore (initial restore, then incremental application with its TXID sidecar
